@@ -227,6 +227,9 @@ def run(tier, seed):
             text, kind = res["viol"]
             src = r.trace_with_header if (r is not None and hasattr(r, "trace_with_header")) else res["trace"]
             p = save_replay(PROP, "%s_%d.ndjson" % (kind, res["i"]), src=src)
+            if kind == "fail":   # the verdict of the driver's oracles travels with the recorded execution
+                with open(p, "a") as f:
+                    f.write(json.dumps({"e": "OracleFail", "what": text[:600]}) + "\n")
             v.violation(text, p)
             continue
         v.traces += 1
@@ -252,8 +255,8 @@ def replay(path, seed):
         path = tmp
     r = validate_trace("SourceTrace.tla", trace_cfg(), path, nthreads=count_threads(path), metaname="C15_replay")
     print(r.out[-3000:])
-    tail = body[-1] if body else ""
-    if '"Hang"' in tail or '"Crash"' in tail:
-        print("the recorded execution ended in %s" % tail)
+    tail = " ".join(body[-2:]) if body else ""
+    if '"Hang"' in tail or '"Crash"' in tail or '"OracleFail"' in tail:
+        print("the recorded execution ended in %s" % body[-1])
         return 1
     return 0 if r.accepted else 1
